@@ -132,4 +132,25 @@ theorem b64_encodedOk (b : Bytes) : encodedOk (b64Body b) = true := by
     rw [← ntw_head]
     exact ntw_join _ 65 h2 h1
 
+theorem joinCrlf_cons_le (l : Bytes) (ls : List Bytes) : (joinCrlf (l :: ls)).length ≤ l.length + 2 + (joinCrlf ls).length := by
+  cases ls with
+  | nil => simp [joinCrlf]
+  | cons m ms => simp [joinCrlf, CRLF]; omega
+
+/-- the base64 body layout is linear in the content: at most twice its size plus four -/
+theorem b64Lines_size (fuel : Nat) (b : Bytes) : (joinCrlf (b64Lines fuel b)).length ≤ 2 * b.length + 4 := by
+  induction fuel generalizing b with
+  | zero => simp [b64Lines, joinCrlf]
+  | succ fuel ih =>
+    simp only [b64Lines]
+    split
+    · simp only [joinCrlf, enc_len]; omega
+    · rename_i hlen
+      have h1 := joinCrlf_cons_le (Base64.enc (b.take 57)) (b64Lines fuel (b.drop 57))
+      have h2 := ih (b.drop 57)
+      have h3 : (Base64.enc (b.take 57)).length = 76 := by
+        rw [enc_len]; simp only [List.length_take]; omega
+      simp only [List.length_drop] at h2
+      omega
+
 end LV.BodyEnc
